@@ -1079,6 +1079,7 @@ fillmode_case(long idx, void *ctx)
 }
 #define NFILLMODE (3L * 8 * 5 * 2 * 2)
 static void biglinked_case(long idx, void *ctx); /* below: one write call spanning several linked-block tables */
+static void bigrecord_case(long idx, void *ctx); /* below: records of 2^25..2^26+1 bytes with the default block size */
 
 int
 C03_main(const char *tier, const char *replay)
@@ -1097,6 +1098,10 @@ C03_main(const char *tier, const char *replay)
         }
         if (cfg[0] == -5) {
             biglinked_case(cfg[1], NULL);
+            return 0;
+        }
+        if (cfg[0] == -9) {
+            bigrecord_case(cfg[1], NULL);
             return 0;
         }
         if (cfg[0] == -8 && ncfg >= 6) {
@@ -1126,7 +1131,10 @@ C03_main(const char *tier, const char *replay)
     mc_round_begin("unlimited data sets: single writes that cross linked-block table boundaries, then reopen");
     mc_foreach(12, biglinked_case, NULL, 1, 300);
     mc_round_end();
-    mc_count("evaluations", mc_get("histories") + mc_get("bigfirst_cases") + mc_get("fillmode_cases") + 12);
+    mc_round_begin("unlimited data sets with records of 2^25 .. 2^26+1 bytes and the default block size");
+    mc_foreach(thorough ? 8 : 2, bigrecord_case, NULL, 1, 300);
+    mc_round_end();
+    mc_count("evaluations", mc_get("histories") + mc_get("bigfirst_cases") + mc_get("fillmode_cases") + 12 + mc_get("bigrecord_cases"));
     mc_rule("SD datasets of rank 1-4 (dims 1..4, 1..3^2, up to 3x2x3 and 2^4), fixed and with an unlimited first dimension (with SDsetblocksize variants and a "
             "second record variable of a different length in the same file), element sizes 1/2/4/8 with the full geometry and all 10 number types x 3 flavours "
             "on reduced geometry, fill mode FILL (default and user value) and NOFILL. Per configuration: every hyperslab made of one arithmetic progression per "
@@ -1436,6 +1444,94 @@ biglinked_case(long idx, void *ctx)
     mc_count("biglinked_cases", 1);
     mc_sample("unlimited x 300 int32, SDsetblocksize(%d), records written 1 + 3 + 3 per call, read back through the same handle, after reselect and after reopen", bs);
 }
+
+/* records so large that the default linked-block size computation (record bytes x 64, capped) leaves 32-bit range */
+static void
+bigrecord_case(long idx, void *ctx)
+{
+    (void)ctx;
+    static const int32 RL[] = {33554432, 34000000, 67108864, 67108865};
+    int32 rl = RL[idx % 4];
+    int   nofill = (int)(idx / 4);
+    int   cfg[3] = {-9, (int)idx, 0};
+    mc_set_config(cfg, 2, "big record case %ld", idx);
+    mc_set_case("unlimited x %d int8 (no SDsetblocksize), %s: 1000 cells written in the middle of record 0 and at the end of record 1", (int)rl, nofill ? "NOFILL" : "fill value 7");
+    vfs_remove_file(PATH);
+    int32 sdid = SDstart(PATH, DFACC_CREATE);
+    int32 dims[2] = {SD_UNLIMITED, rl};
+    int32 id = SDcreate(sdid, "bigrec", DFNT_INT8, 2, dims);
+    int8  fv = 7;
+    if (id == FAIL || SDsetfillvalue(id, &fv) == FAIL || (nofill && SDsetfillmode(sdid, SD_NOFILL) == FAIL)) {
+        mc_violation("C03:bigrecord:setup", "SDcreate/SDsetfillvalue failed for a record of %d bytes", (int)rl);
+        return;
+    }
+    static int8 v[1000], back[1000 + 8];
+    for (int i = 0; i < 1000; i++)
+        v[i] = (int8)(i * 7 + 3);
+    int32 st[2] = {0, rl / 2}, cn[2] = {1, 1000};
+    if (SDwritedata(id, st, NULL, cn, v) == FAIL) {
+        mc_violation("C03:bigrecord:write", "SDwritedata of 1000 cells at (0,%d) of an unlimited x %d int8 data set failed", (int)st[1], (int)rl);
+        return;
+    }
+    st[0] = 1, st[1] = rl - 1000;
+    if (SDwritedata(id, st, NULL, cn, v) == FAIL) {
+        mc_violation("C03:bigrecord:write", "SDwritedata of the last 1000 cells of record 1 (record length %d) failed", (int)rl);
+        return;
+    }
+    for (int phase = 0; phase < 2; phase++) {
+        if (phase == 1) {
+            SDendaccess(id);
+            if (SDend(sdid) == FAIL) {
+                mc_violation("C03:bigrecord:close", "SDend failed");
+                return;
+            }
+            sdid = SDstart(PATH, DFACC_READ);
+            id   = SDselect(sdid, SDnametoindex(sdid, "bigrec"));
+        }
+        const char *when = phase ? "after SDend/SDstart" : "same handle";
+        int32 dm[2] = {0, 0}, rk, nt, na;
+        char  nm[64];
+        if (id == FAIL || SDgetinfo(id, nm, &rk, dm, &nt, &na) == FAIL || dm[0] != 2 || dm[1] != rl) {
+            mc_violation("C03:bigrecord:shape", "%s: data set reports %d x %d, written 2 records of %d", when, (int)dm[0], (int)dm[1], (int)rl);
+            return;
+        }
+        for (int r = 0; r < 2; r++) {
+            st[0] = r, st[1] = r ? rl - 1000 : rl / 2;
+            memset(back, 0x55, sizeof back);
+            if (SDreaddata(id, st, NULL, cn, back) == FAIL || memcmp(back, v, 1000) != 0) {
+                mc_violation("C03:bigrecord:value", "%s: the 1000 cells written at (%d,%d) do not read back (record length %d)", when, r, (int)st[1], (int)rl);
+                return;
+            }
+        }
+        if (!nofill) {
+            /* never-written cells: both ends of record 0, start of record 1 */
+            int32 probes[3][2] = {{0, 0}, {0, rl - 8}, {1, 0}};
+            for (int q = 0; q < 3; q++) {
+                int32 c8[2] = {1, 8};
+                memset(back, 0x55, sizeof back);
+                if (SDreaddata(id, probes[q], NULL, c8, back) == FAIL) {
+                    mc_violation("C03:bigrecord:read-failed", "%s: reading 8 never-written cells at (%d,%d) failed", when, (int)probes[q][0], (int)probes[q][1]);
+                    return;
+                }
+                for (int i = 0; i < 8; i++)
+                    if (back[i] != fv) {
+                        mc_violation("C03:bigrecord:fill", "%s: never-written cell (%d,%d) reads %d, fill value is %d", when, (int)probes[q][0], (int)probes[q][1] + i, back[i], fv);
+                        return;
+                    }
+            }
+        }
+        st[0] = 2, st[1] = 0;
+        if (SDreaddata(id, st, NULL, cn, back) != FAIL) {
+            mc_violation("C03:bigrecord:beyond", "%s: reading record 2 of 2 succeeded", when);
+            return;
+        }
+    }
+    SDendaccess(id);
+    SDend(sdid);
+    mc_count("bigrecord_cases", 1);
+    mc_outcome(mc_hash_i(mc_hash_i(MC_H0, -9), idx));
+}
+#define NBIGRECORD 8
 
 int
 C04_main(const char *tier, const char *replay)
